@@ -1,14 +1,53 @@
 // C17 — RHP contract constructors conserve funds and yield consensus-valid contracts.
 //
-// TestSeq   one Case = one drawn sequence NewContract -> {append, free, roots, fund, replenish, pay,
+// TestSeq     one Case = one drawn sequence NewContract -> {append, free, roots, fund, replenish, pay,
+//             renew, refresh full, refresh partial, reprice, mine}; the pure checker replays it against
+//             the library, an independent math/big model and a private consensus chain (env_test.go):
+//             every request passes its own Validate, every result is signed, funded with exactly the
+//             reported costs, accepted by consensus.ValidateV2Transaction and applied, and the next
+//             call starts from the V2FileContractElement reported by ApplyUpdate.
+// TestUsage   HostPrices.RPC*Cost / Usage.Add / Usage.Mul / RenterCost against math/big (v1_test.go).
+// TestV1      rhp2 formation -> rhp3 PayByContract -> rhp2/rhp3 renewal: tax equation with an own
+//             big-integer tax, valid==missed, cost functions, consensus.ValidateTransaction (v1_test.go).
+// TestTaxEnum dense sweep of the v1 tax inversion over consecutive targets (v1_test.go).
 //
-//	renew, refresh full, refresh partial, reprice, mine}; the pure checker replays it against
-//	the library, an independent math/big model and a private consensus chain (env_test.go).
+// Sensitivity (tools/with_mutant.sh, ./run C17 quick at VERIF_SCALE=0.25, machine heavily shared so the
+// seconds are upper bounds; "model" = killed only by the reference model, conservation/consensus alone
+// would not see it):
 //
-// TestUsage HostPrices.RPC*Cost / Usage.Add / Usage.Mul / RenterCost against math/big.
-// TestV1    rhp2/rhp3 formation, PayByContract, renewal: tax equation, valid==missed, ValidateTransaction.
-//
-// MUTANT TABLE: see the block at the end of this comment (filled in after the sensitivity runs).
+//	M01 RenewContract renter rollover min->max                      killed 22s  renew/panic (Sub underflow)
+//	M02 RenewContract host rollover min->max                        killed 12s  renew/cost-panic
+//	M03 partial refresh TotalCollateral from fc.TotalCollateral     killed 26s  refresh_partial/model
+//	M04 Usage.RenterCost omits Ingress                              killed 16s  rev/renter-cost
+//	M05 PayWithContract does not increment RevisionNumber           killed 31s  rev/revnum
+//	M06 MissedHostValue lowered by the renter cost, not collateral  killed 23s  rev/missed
+//	M07 RenewalCost drops the tax                                   killed 19s  renew/cost
+//	M08 consensus V2FileContractTax rounds up                       killed 16s  form/cost (own tax)
+//	M09 PayWithContract rejects balance == cost                     killed 58s  rev/sufficient-rejected
+//	M10 append ignores free capacity (growth = appended)            killed 51s  rev/sufficient-rejected, rev/usage
+//	M11 partial refresh renterFunds without contract price          killed 42s  refresh_partial/model
+//	M12 rhp2 taxAdjustedPayout gm<tm -> gm<=tm                      killed 42s  panic underflow / v1 tax
+//	M13 rhp3 void payout drops base collateral                      killed 47s  v1/renew3/outputs
+//	M14 round4KiB off by one                                        killed 36s  rev/usage
+//	M15 append risked collateral uses StoragePrice                  killed 59s  rev/usage
+//	M16 PayWithContract rejects remaining collateral == risked      killed 46s  rev/sufficient-rejected
+//	M17 NewContract MissedHostValue includes contract price         killed 38s  form/model
+//	M18 RenewContract storage cost counted from TipHeight           killed 52s  renew/model
+//	M19 full refresh does not raise MissedHostValue                 killed 54s  refresh_full/model
+//	M20 RefreshCost host share ignores contract price               killed 61s  refresh_*/cost
+//	M21 ReviseForFreeSectors keeps Filesize                         killed 67s  rev/model/free
+//	M22 rhp3 PayByContract does not credit missed host output       killed 49s  v1/pay/sum
+//	M23 ContractCost host share zero                                killed 45s  form/cost
+//	M24 RenewContract risked collateral uses old expiration         killed 64s  renew/model
+//	M25 rhp2 formation void output 1 H                              killed 51s  v1/form/valid-missed
+//	M26 renew Validate accepts ProofHeight == existing              SURVIVED    (not a violation: such a renewal still
+//	                                                                            conserves funds and is consensus-valid; the
+//	                                                                            checker treats a non-extending renewal as out of domain)
+//	M27 refresh Validate drops the "too close to proof window" rule killed 61s  refresh_*/consensus
+//	M30 RenewContract keeps old Capacity                            killed 62s  renew/model
+//	M34 PayWithContract bumps RevisionNumber before the funds check killed 62s  rev/error-modified
+
+// Package c17 holds the C17 check.
 package c17
 
 import (
@@ -17,7 +56,6 @@ import (
 	"strings"
 	"testing"
 
-	"go.sia.tech/core/consensus"
 	rhp4 "go.sia.tech/core/rhp/v4"
 	"go.sia.tech/core/types"
 	"verif/harness/stats"
@@ -1075,5 +1113,3 @@ func checkSeq(c Case) error {
 func TestSeq(t *testing.T) { stats.Prop(t, drawSeq, checkSeq) }
 
 func TestReplaySeq(t *testing.T) { stats.Replay(t, "TestSeq", checkSeq) }
-
-var _ = consensus.State{}
